@@ -307,9 +307,9 @@ def prAlterOp (d : Gen.D) : AlterOp → P
   | .addPartition b p => (prPartition d p).map fun x => s!"ADD{if b then " IF NOT EXISTS" else ""} {x}"
   | .add x => (prColOrIdx d x).map fun s => s!"ADD {s}"
   | .modify x => (prColOrIdx d x).map fun s => s!"MODIFY {s}"
-  | .change f t => (prColOrIdx d t).map fun s => s!"CHANGE {f} {s}"
-  | .renameColumn f t => .ok s!"RENAME COLUMN {f} TO {t}"
-  | .dropColumn c => .ok s!"DROP COLUMN {c}"
+  | .change f t => (prColOrIdx d t).map fun s => s!"CHANGE `{f}` {s}"
+  | .renameColumn f t => .ok s!"RENAME COLUMN `{f}` TO `{t}`"
+  | .dropColumn c => .ok s!"DROP COLUMN `{c}`"
   | .dropPartition b p => (prPartition d p).map fun x => s!"DROP{if b then " IF EXISTS" else ""} {x}"
 
 def mapM' {α : Type} (f : α → P) : List α → Except Err (List String)
